@@ -323,6 +323,7 @@ package meta
 //@   holds fsm.mu
 //@   at after proto.GetExtension#1: assume typeis(callresult0, "*metapb.TruncateShardGroupsCommand") && ival(callresult0) != 0
 //@   ensures rejected_changes_nothing: result != nil ==> fsm.data == old(fsm.data)
+//@   call Data.TruncateShardGroups#1 assume_callee_requires
 //@   call Data.TruncateShardGroups#1 requires runs_on_private_copy: fresh(other)
 
 //@ func (*storeFSM).applyPruneShardGroupsCommand
@@ -558,10 +559,6 @@ package meta
 //@   assumed
 //@   modifies *except storeFSM.all store.all
 
-//@ func (*Data).TruncateShardGroups
-//@   assumed
-//@   modifies *except storeFSM.all store.all
-
 //@ func (*Data).UpdateRetentionPolicy
 //@   assumed
 //@   modifies *except storeFSM.all store.all
@@ -617,3 +614,22 @@ package meta
 //@   loop 1 invariant best_so_far: minId != -1 ==> minId >= 0 && has(ownerFreqs, minId) && visited(minId) && minFreq == ownerFreqs[minId] && all(k_, visited(k_) ==> (minFreq < ownerFreqs[k_] || (minFreq == ownerFreqs[k_] && minId <= k_)))
 //@   ensures no_node_is_an_error: (result1 != nil) == all(k_, !has(old(ownerFreqs), k_))
 //@   ensures least_loaded_then_smallest_id: result1 == nil ==> has(old(ownerFreqs), result0) && all(k_, has(old(ownerFreqs), k_) ==> (old(ownerFreqs[result0]) < old(ownerFreqs[k_]) || (old(ownerFreqs[result0]) == old(ownerFreqs[k_]) && result0 <= k_)))
+
+// ---- C06: truncation only ever shrinks the live range of a shard group ----
+// Disjointness of the live groups of a policy is established when a group is created (CreateShardGroup clips
+// against the effective ends); it survives TruncateShardGroups because no group's effective end ever grows,
+// and nothing else about a group changes. Live groups that reach beyond t end at max(t, start) afterwards.
+//@ pure group_ordered(g) = !g.StartTime.IsZero() && nanos(g.StartTime) <= nanos(g.EndTime) && (g.TruncatedAt.IsZero() || (nanos(g.StartTime) <= nanos(g.TruncatedAt) && nanos(g.TruncatedAt) <= nanos(g.EndTime)))
+//@ func (*Data).TruncateShardGroups
+//@   props C06
+//@   requires groups_ordered: all(r, group_ordered(cast(ShardGroupInfo, r)))
+//@   requires t_not_zero: !t.IsZero()
+//@   loop 1 invariant never_grows: all(r, eff_end(cast(ShardGroupInfo, r)) <= old(eff_end(cast(ShardGroupInfo, r))))
+//@   loop 1 invariant ordered: all(r, group_ordered(cast(ShardGroupInfo, r)))
+//@   loop 2 invariant never_grows: all(r, eff_end(cast(ShardGroupInfo, r)) <= old(eff_end(cast(ShardGroupInfo, r))))
+//@   loop 2 invariant ordered: all(r, group_ordered(cast(ShardGroupInfo, r)))
+//@   loop 3 invariant never_grows: all(r, eff_end(cast(ShardGroupInfo, r)) <= old(eff_end(cast(ShardGroupInfo, r))))
+//@   loop 3 invariant ordered: all(r, group_ordered(cast(ShardGroupInfo, r)))
+//@   ensures effective_end_never_grows: all(r, eff_end(cast(ShardGroupInfo, r)) <= old(eff_end(cast(ShardGroupInfo, r))))
+//@   ensures groups_stay_ordered: all(r, group_ordered(cast(ShardGroupInfo, r)))
+//@   modifies ShardGroupInfo.TruncatedAt
